@@ -9,7 +9,9 @@ RULE = ("ACK histories emitted by the exhaustive TLC runs of TcpSenderMC (every 
         "validated step by step from the logged pre-state; a scenario is non-trivial when it contains a third duplicate "
         "ACK, further duplicates, a new ACK that ends fast recovery, a new ACK after one or two duplicates, a Reno "
         "congestion-avoidance ACK, a multi-segment ACK, a retransmission timeout (also inside fast recovery), a send "
-        "limited by the flow's buffered data, or a CUBIC congestion-avoidance ACK (counted / growing); distinct = "
+        "limited by the flow's buffered data, an application-limited flow (data handed over chunk by chunk while the sender "
+        "sleeps: a timeout / third duplicate while it waits, a send right after data arrived, data meeting a closed window), "
+        "or a CUBIC congestion-avoidance ACK (counted / growing); distinct = "
         "distinct scenarios")
 
 MSS = 512
@@ -21,7 +23,10 @@ def from_history(ctx, h):
     rng = ctx.rng
     cfg = h["cfg"]
     ev = []
+    chunks = [e["k"] * MSS for e in h["hist"] if e["op"] == "P"]
     for e in h["hist"]:
+        if e["op"] == "P":
+            continue
         if e["op"] == "A":
             ev.append({"op": "A", "dt": rng.choice([0, 1, 1, 2]), "k": e["k"], "rtt": e["rn"] * DEN // e["rd"],
                        "late": rng.choice([0, 0, 1])})
@@ -29,8 +34,40 @@ def from_history(ctx, h):
             ev.append({"op": "D", "dt": rng.choice([0, 0, 1]), "late": rng.choice([0, 0, 1])})
         else:
             ev.append({"op": "W", "dt": rng.choice([2, 3, 5]) * DEN})
-    return {"cc": cfg["cc"], "cwnd": cfg["cw0"] * MSS, "ssthresh": min(cfg["ss0"] * MSS, 65535), "rtt0": DEN, "den": DEN,
-            "size": 0, "ev": ev, "src": "tlc"}
+    sc = {"cc": cfg["cc"], "cwnd": cfg["cw0"] * MSS, "ssthresh": min(cfg["ss0"] * MSS, 65535), "rtt0": DEN, "den": DEN,
+          "size": 0, "ev": ev, "src": "tlc"}
+    if chunks:
+        # the application hands over these chunks; how far apart is the application's business
+        sc["chunks"] = chunks + [MSS]
+        sc["gaps"] = [rng.choice([1, 2, DEN // 2, DEN, 2 * DEN]) for _ in chunks] + [DEN]
+        sc["rtt0"] = rng.choice([DEN, DEN // 2, 3 * DEN // 4])
+    return sc
+
+
+def random_app_limited(ctx):
+    """An application-limited flow (Flow.arrival_dist / size_dist): the sender sleeps in its refill loop while ACKs,
+    duplicate ACKs and retransmission timeouts change the window."""
+    rng = ctx.rng
+    den = rng.choice([8, 8, 64])
+    cubic = rng.random() < 0.15
+    n = rng.randint(3, 10 if ctx.quick else 30)
+    gap = rng.choice([den // 2, den, den, 2 * den, 3 * den])
+    gaps = [rng.choice([gap, gap, gap // 2 or 1, 2 * gap]) for _ in range(rng.randint(1, 6))]
+    chunks = [rng.choice([MSS, MSS, MSS, 2 * MSS, 3 * MSS, 700, 300]) for _ in range(rng.randint(1, 6))]
+    ev = []
+    while len(ev) < n:
+        r = rng.random()
+        if r < 0.4:
+            ev.append({"op": "W", "dt": rng.choice([gap // 2 or 1, gap, gap + 1, 2 * gap, 3 * gap, 5 * gap])})
+        elif r < 0.75:
+            ev.append({"op": "A", "dt": rng.choice([0, 1, gap // 2, gap, gap + 1]), "k": rng.choice([1, 1, 2, 3]),
+                       "rtt": rng.choice([-1, 1, den // 2, den]), "late": rng.choice([0, 0, 1])})
+        else:
+            for _ in range(rng.choice([1, 2, 3, 3, 4, 5])):
+                ev.append({"op": "D", "dt": rng.choice([0, 0, 1, gap // 2]), "late": rng.choice([0, 0, 1])})
+    return {"cc": "cubic" if cubic else "reno", "cwnd": rng.choice([1024, 1536, 2048, 2048, 4096, 8192]),
+            "ssthresh": rng.choice([0, 1024, 2048, 4096, 65535]), "rtt0": rng.choice([den // 2, 3 * den // 4, den, den // 4]),
+            "den": den, "size": 0, "gaps": gaps, "chunks": chunks, "ev": ev, "src": "random-app"}
 
 
 def random_history(ctx):
@@ -102,18 +139,26 @@ def classify(ctx, sc, tr):
                     kinds.add("estimator_beyond_exact_fixed_point")
             elif e["dup"] == 3:
                 kinds.add("third_duplicate")
+                if sc.get("gaps") and pre["ns"] >= pre["buf"]:
+                    kinds.add("third_duplicate_while_waiting_for_application_data")
             elif e["dup"] > 3:
                 kinds.add("further_duplicate")
         elif e["e"] == "T":
             kinds.add("timeout")
+            if sc.get("gaps") and pre["ns"] >= pre["buf"]:
+                kinds.add("timeout_while_waiting_for_application_data")
             if pre["dup"] >= 3:
                 kinds.add("timeout_in_fast_recovery")
             if e["seq"] < pre["la"]:
                 kinds.add("timeout_of_acknowledged_segment")
         elif e["e"] == "S":
+            if sc.get("gaps") and e["buf"] > pre["buf"]:
+                kinds.add("send_right_after_application_data")
             if e["ns"] + MSS - e["la"] == e["cwnd"] // 1024 and e["cx"]:
                 kinds.add("send_fills_window_exactly")
-        elif e["e"] == "Q":
+        if sc.get("gaps") and e["buf"] > pre["buf"] and e["e"] != "S":
+            kinds.add("application_data_meets_closed_window")
+        if e["e"] == "Q":
             if sc["size"] and e["ns"] + MSS > sc["size"] and (e["ns"] + MSS - e["la"]) * 1024 <= e["cwnd"]:
                 kinds.add("send_limited_by_buffered_data")
         pre = e
@@ -156,13 +201,15 @@ def mc_jobs(ctx):
         return text
 
     if ctx.quick:
-        return [("reno", cfg("reno"), ACTS, 8), ("lazy", cfg("lazy"), ACTS, 3), ("cubic", cfg("cubic"), ACTS + ("EnvTick",), 3)]
+        return [("reno", cfg("reno"), ACTS, 6), ("lazy", cfg("lazy"), ACTS, 2), ("cubic", cfg("cubic"), ACTS + ("EnvTick",), 2),
+                ("app", cfg("app"), ACTS + ("EnvAppData",), 6)]
     noemit = cfg("reno").replace("CONSTRAINT Emit\n", "VIEW NoHist\n")
     return [("reno", cfg("reno"), ACTS, 4),
             ("reno 8 events", sub(noemit, MaxEv=8, MaxSeg=6), ACTS, 6),
             ("reno 3 samples", sub(noemit, MaxEv=6, Tier='"renoT"'), ACTS, 4),
             ("lazy 5 events", sub(cfg("lazy"), MaxEv=5), ACTS, 4),
-            ("cubic 6 events", sub(cfg("cubic"), MaxEv=6), ACTS + ("EnvTick",), 4)]
+            ("cubic 6 events", sub(cfg("cubic"), MaxEv=6), ACTS + ("EnvTick",), 4),
+            ("app 4 events", sub(cfg("app"), MaxEv=4), ACTS + ("EnvAppData",), 6)]
 
 
 def mc_all(ctx):
@@ -208,10 +255,11 @@ def run(ctx, replay=None):
             raise core.Machinery("TcpSenderMC emitted no history")
         ctx.extra["histories_emitted_by_tlc"] = len(emitted)
         ctx.rng.shuffle(emitted)
-        n_emit = 700 if ctx.quick else 20000
+        n_emit = 900 if ctx.quick else 20000
         n_rand = 1000 if ctx.quick else 60000
         scs = [from_history(ctx, h) for h in emitted[:n_emit]]
         scs += [random_history(ctx) for _ in range(n_rand)]
+        scs += [random_app_limited(ctx) for _ in range(n_rand // 2)]
     traces = ctx.drive("tcpsender", scs, procs=12)
     stuck = ctx.validate("TcpSenderTrace", "TcpSenderTrace.cfg", "tcp", traces, shard=max(60, len(traces) // 16 + 1))
     distinct = set()
@@ -232,7 +280,8 @@ def run(ctx, replay=None):
     if not replay and not ctx.violations:
         for k in ("third_duplicate", "further_duplicate", "new_ack_ends_fast_recovery", "new_ack_after_one_or_two_duplicates",
                   "reno_ca_ack", "slow_start_ack", "multi_segment_ack", "timeout", "timeout_in_fast_recovery",
-                  "send_limited_by_buffered_data", "cubic_ca_ack"):
+                  "send_limited_by_buffered_data", "cubic_ca_ack", "timeout_while_waiting_for_application_data",
+                  "send_right_after_application_data", "application_data_meets_closed_window"):
             if not ctx.nontrivial.get(k):
                 raise core.Machinery("vacuity: no replayed scenario of kind %s" % k)
     return ctx.finish(RULE, assumptions=[
